@@ -35,10 +35,11 @@ where
 
 def c19serving : Analysis := analysis fnNames items servingEntries
 
-/-- frame facts regenerated from the sources: serving never writes the registration state; trace
+/-- frame facts regenerated from the sources: serving never writes the registration state
+    and never builds a slice that may alias a shared one (the filter chain is a fresh allocation); trace
     blocks only log (and there are some); the CORS filter's `Filter` has a value receiver -/
 theorem C19_frame :
-    reachableWrites c19serving = [] ∧ c19serving.fixpoint = true ∧
+    reachableWrites c19serving = [] ∧ reachableAliasAppends c19serving = [] ∧ c19serving.fixpoint = true ∧
     traceBlockOther = [] ∧ traceBlockCount ≥ 10 ∧
     fnRecvPointer.getD (fnId fnNames "CrossOriginResourceSharing.Filter") true = false := by
   decide +kernel
